@@ -503,7 +503,9 @@ class Job:
         # Inform parent job, to use other_job instead.
         parent_job = self.parent_job
         assert parent_job
-        parent_job.child_jobs[parent_job.child_jobs.index(self)] = other_job
+        if self in parent_job.child_jobs:
+            # A parent that has already concluded (e.g. rejected by another child) has cleared its list.
+            parent_job.child_jobs[parent_job.child_jobs.index(self)] = other_job
 
         # Make callbacks just as if we had gotten a cache hit.
         def then(result: Any) -> None:
